@@ -120,7 +120,8 @@ func (s *Sizes) Sizeof(T types.Type) int64 {
 		offsets := s.Offsetsof(fields)
 		a := s.Alignof(T)
 		lsz := s.Sizeof(fields[n-1].Type())
-		if lsz == 0 {
+		if lsz == 0 && offsets[n-1] > 0 {
+			// gc pads a trailing zero-size field only in a struct of non-zero size.
 			lsz = 1
 		}
 		z := offsets[n-1] + lsz
